@@ -66,6 +66,77 @@ def install():
         return (start, stop, step)
     register_patch(slice.indices, _indices)
 
+    # bytes(obj): CrossHair's patch iterates any iterable argument and ignores __bytes__ (toolkit.bits.Bitset is
+    # a Sequence of bools WITH __bytes__: bytes(Bitset) came back as one byte per bit), and it rejects the
+    # encoding= keyword.  Python's rule: __bytes__ wins; str needs an encoding.
+    from crosshair.util import CrossHairValue
+    layered = {}      # overrides stacked ON TOP of CrossHair's own patches (see sx_worker: patching_module.add)
+
+    def _bytes2(*a, **kw):
+        dunder = None
+        with NoTracing():
+            if len(a) == 1 and not kw:
+                src = a[0]
+                if not isinstance(src, (CrossHairValue, bytes, bytearray, memoryview, str, int)):
+                    dunder = getattr(type(src), "__bytes__", None)
+        if dunder is not None:
+            return dunder(a[0])
+        if kw or len(a) > 1:
+            src = a[0] if a else kw["source"]
+            enc = kw.get("encoding", a[1] if len(a) > 1 else "utf-8")
+            err = kw.get("errors", a[2] if len(a) > 2 else "strict")
+            return src.encode(enc, err)
+        return bytes(*a)          # resolves to CrossHair's own bytes patch (next layer)
+    layered[bytes] = _bytes2
+
+    # int(obj) with a Python-level __int__ returning a symbolic int: the C slot wrapper rejects the proxy
+    # ("__int__ returned non-int"); call the method directly (its result IS the int, symbolic or not).
+
+    def _int2(*a, **kw):
+        dunder = None
+        with NoTracing():
+            if len(a) == 1 and not kw:
+                src = a[0]
+                if not isinstance(src, (CrossHairValue, int, float, str, bytes, bytearray)):
+                    d = getattr(type(src), "__int__", None)
+                    if d is not None and hasattr(d, "__code__"):
+                        dunder = d
+        if dunder is not None:
+            r = dunder(a[0])
+            return r
+        return int(*a, **kw)      # resolves to CrossHair's own int patch (next layer)
+    layered[int] = _int2
+
+    # int.bit_length of a symbolic int: CrossHair realises (enumerates) the value.  Model: a fresh int r tied to
+    # |x| by the defining inequalities 2^(r-1) <= |x| < 2^r for r <= 72 (no fork); wider values fall back to
+    # CrossHair's realisation.
+    import z3 as _z3
+    from crosshair.statespace import context_statespace
+    from crosshair.libimpl.builtinslib import SymbolicBoundedInt
+    _orig_bit_length = int.bit_length
+    _K = 72
+
+    def _bit_length(self):
+        with NoTracing():
+            if not isinstance(self, SymbolicInt):
+                return _orig_bit_length(self)
+            space = context_statespace()
+            x = self.var
+            ax = _z3.If(x >= 0, x, -x)
+            if space.is_possible(ax >= 2 ** _K):
+                wide = True
+            else:
+                wide = False
+                r = SymbolicBoundedInt("bitlen" + space.uniq(), int, 0, _K)
+                cases = [_z3.And(r.var == 0, ax == 0)]
+                for k in range(1, _K + 1):
+                    cases.append(_z3.And(r.var == k, ax >= 2 ** (k - 1), ax < 2 ** k))
+                space.add(_z3.Or(*cases))
+                return r
+        from crosshair.core import realize
+        return _orig_bit_length(realize(self))
+    layered[int.bit_length] = _bit_length
+
     _orig_dumps = _pickle.dumps
 
     def _dumps(obj, *a, **kw):
@@ -89,3 +160,4 @@ def install():
         with NoTracing():
             return _orig_loads(data, *a, **kw)
     register_patch(_pickle.loads, _loads)
+    return layered
